@@ -58,14 +58,17 @@ static void scenario(int mode, int d0, int d1, int cancel_who, bool destroy_earl
             vrt_label("main-join-scheduler-thread");
             sthr.join();
         }
+        // A sleeper whose time point was reached has been handed to the pool (pool.resume(suspend_point)) and may still be
+        // queued there: it must settle while the pool is alive.  What a pool does with queued work when it is stopped
+        // is C11's subject (and its known finding), not the scheduler's.
+        for (int i = 0; i < 2; i++) {
+            vrt_label("main-wait-sleeper-settled");
+            while (!s[S_WOKE + i] && !s[S_CANC + i]) vrt_yield();
+        }
         vrt_label("main-destroy-pool");
         pool.reset();
         vrt_label("main");
         for (int i = 0; i < 2; i++) {
-            // a coroutine resumed by the pool/scheduler thread may still be finishing
-            vrt_label("main-wait-sleeper-settled");
-            while (!s[S_WOKE + i] && !s[S_CANC + i]) vrt_yield();
-            vrt_label("main");
             VRT_CHECK(s[S_WOKE + i] + s[S_CANC + i] == 1, "sched/exactly-once", "sleep %d: %ld wake-ups and %ld cancellations", i, (long)s[S_WOKE + i], (long)s[S_CANC + i]);
             if (s[S_WOKE + i]) {
                 VRT_CHECK(s[S_AT + i] >= s[S_WANT + i], "sched/early", "sleep %d woke at %ld ms, requested %ld ms", i, (long)s[S_AT + i], (long)s[S_WANT + i]);
